@@ -1251,7 +1251,8 @@ func (g *gen) genInstr(f *hframe, cols []colInfo, bad bool, written map[string]b
 			toks = append(toks, "-", "-", "c", tx.CInt(v))
 			break
 		}
-		enumOK := c.typ == "e" && !g.inFapply && upperInjective(c.vals)
+		// upper-casing that merges two values leaves a value table with duplicates (recorded finding KF-C17-enum-dup): rare
+		enumOK := c.typ == "e" && !g.inFapply && (upperInjective(c.vals) || (allValid(c.vals) && r.P(1, 3)))
 		if !(c.typ == "s" || enumOK) || !g.allValidUTF8(f, c) || !sameCol(f, c) || written[c.name] {
 			v := g.genInt()
 			in.Fn = v
@@ -1990,6 +1991,15 @@ func (g *gen) emitLikeOracle(f *hframe, c colInfo, pat string, ci bool) {
 	g.w.Line(toks...)
 }
 
+func allValid(vals []string) bool {
+	for _, v := range vals {
+		if !utf8.ValidString(v) {
+			return false
+		}
+	}
+	return true
+}
+
 func upperInjective(vals []string) bool {
 	seen := map[string]bool{}
 	for _, v := range vals {
@@ -2189,7 +2199,15 @@ func (g *gen) rebuild(src *hframe) {
 	}
 	nf := g.finish(fid, func() qframe.QFrame { return qframe.New(data, fns...) })
 	g.equals(src, nf)
-	if pert <= 1 && !nf.err {
+	derivedEnum := false
+	for _, c := range src.cols {
+		if c.typ == "e" && !c.strict {
+			// the rebuilt column declares the values and is therefore strict; a derived enum is not: the two differ in how
+			// they treat undeclared filter constants, and the documentation leaves the rank order of derived enums open
+			derivedEnum = true
+		}
+	}
+	if pert <= 1 && !nf.err && !derivedEnum {
 		g.congruence(src, nf)
 	}
 }
@@ -2485,7 +2503,27 @@ func (g *gen) writerFaults(src *hframe) {
 }
 
 // witnesses replays the recorded (open) findings of this section deterministically, so that every run probes them.
+func (g *gen) witnessEnumDup() {
+	// KF-C17-enum-dup: ToUpper on the enum [a, A, a] gives the value table [A, A]; e = "A" then keeps only the rows of the first code
+	a, b := "a", "A"
+	col := []*string{&a, &b, &a}
+	g.w.Line("N", "0", "1", tx.HexS("e"), "S", "3", tx.HexS("a"), tx.HexS("A"), tx.HexS("a"), "O", "0", "E", "1", tx.HexS("e"), "0")
+	base := g.finish(0, func() qframe.QFrame {
+		return qframe.New(map[string]types.DataSlice{"e": col}, newqf.Enums(map[string][]string{"e": nil}))
+	})
+	g.w.Line("XU", "2", tx.HexS("a"), tx.HexS("A"), tx.HexS("A"), tx.HexS("A"))
+	g.w.Line("O", "1", "0", "apply", "1", tx.HexS("e"), tx.HexS("e"), "-", "bi", tx.HexS("ToUpper"))
+	up := g.finish(1, func() qframe.QFrame { return base.qf.Apply(qframe.Instruction{Fn: "ToUpper", DstCol: "e", SrcCol1: "e"}) })
+	g.w.Line("CB", "1", "1", "-1")
+	g.w.Line("O", "2", "1", "filter", "F", "0", tx.HexS("e"), "s"+tx.HexS("="), tx.HexS("A"))
+	g.finish(2, func() qframe.QFrame { return up.qf.Filter(qframe.Filter{Column: "e", Comparator: "=", Arg: "A"}) })
+}
+
 func (g *gen) witnesses() {
+	if g.opt["wit"] == "enumdup" {
+		g.witnessEnumDup()
+		return
+	}
 	// KF-C06-fapply-fill: FilteredApply(x > 2, {Fn: 7, DstCol: "y"}) and a ColumnName copy on x = [1,2,3,4]
 	x := []int{1, 2, 3, 4}
 	g.w.Line("N", "0", "1", tx.HexS("x"), "I", "4", "i1", "i2", "i3", "i4", "O", "0", "E", "0")
